@@ -170,6 +170,24 @@ def fresh_rule(model: Model, res, rule: str = "R-FRESH", allow: Optional[Dict[st
                     report("S4", f.loc(ws[0]), f.qualname, f"closure state in {getattr(inner, 'name', 'lambda')}",
                            f"{f.qualname}: the returned inner function keeps state between calls in a closure cell "
                            f"(`{ast.unparse(ws[0])[:60]}`): results depend on the call history (memo / decorator state)")
+        # ---- S5 process-wide interpreter settings changed inside a function (module-level configuration at import time is
+        #         one fixed setting; a function that changes it changes the arithmetic of everything that runs afterwards)
+        for f in funcs:
+            ctx_names = {s.targets[0].id for s in ast.walk(f.node) if isinstance(s, ast.Assign) and isinstance(s.targets[0], ast.Name)
+                         and isinstance(s.value, ast.Call) and ast.unparse(s.value.func).split(".")[-1] == "getcontext"}
+            for s in ast.walk(f.node):
+                tgts = s.targets if isinstance(s, ast.Assign) else ([s.target] if isinstance(s, ast.AugAssign) else [])
+                for t in tgts:
+                    if isinstance(t, ast.Attribute) and ((isinstance(t.value, ast.Call) and ast.unparse(t.value.func).split(".")[-1] == "getcontext")
+                                                         or (isinstance(t.value, ast.Name) and t.value.id in ctx_names)):
+                        report("S5", f.loc(s), f.qualname, f"decimal context {t.attr}",
+                               f"{f.qualname} changes the process-wide decimal context (`{ast.unparse(s)[:60]}`): every computation that "
+                               f"runs afterwards in this process - other markets, other strategies - uses the changed {t.attr} unless "
+                               f"every path restores it")
+                if isinstance(s, ast.Call) and ast.unparse(s.func).split(".")[-1] in ("setcontext", "set_option", "seterr", "setlocale",
+                                                                                      "setrecursionlimit", "seed"):
+                    report("S5", f.loc(s), f.qualname, f"process setting {ast.unparse(s.func)}",
+                           f"{f.qualname} changes a process-wide setting (`{ast.unparse(s)[:60]}`)")
         # ---- S2 class-level mutable attributes mutated through self / cls
         for c in m.classes.values():
             if c.is_dataclass:
